@@ -37,7 +37,7 @@ TailStmts(tl, d) ==
       [] tl = "gcontinue" -> <<If1(Guard(d), <<Cnt>>)>>
 Tails(inLoop) == IF inLoop THEN LoopTails ELSE {"none"}
 
-\* the eleven positioned constructs at depth d around a child block b (1..8 if forms, 9..11 loop forms)
+\* the positioned constructs at depth d around a child block b (1..8 if forms, 9..11 loop forms)
 IfForm(d, b, k) ==
     LET c1 == Cond(d, 1)  c2 == Cond(d, 2)  x == <<Log(10 * d + 5)>>  y == <<Log(10 * d + 6)>>  z == <<Log(10 * d + 7)>> IN
     CASE k = 1 -> <<If1(c1, b)>>
@@ -58,6 +58,13 @@ LoopForm(d, b, k) ==
           << [k |-> "for", var |-> vv, idx |-> "", e |-> P(100 * d + 4, V("arr")), body |-> <<[k |-> "expr", e |-> P(100 * d + 8, V(vv))]>> \o b] >>
       [] k = 11 ->
           << [k |-> "for", var |-> vv, idx |-> kv, e |-> V("arr"), body |-> <<[k |-> "expr", e |-> P(100 * d + 9, V(kv))]>> \o b] >>
+      \* a while whose condition is a VALUE of any type (not a boolean): truthiness is decided at the header and at the footer
+      [] k = 12 ->
+          << SAssign(iv, NumE(0)), SAssign("c" \o S(d), V("g" \o S(d) \o "1")),
+             [k |-> "while", cond |-> V("c" \o S(d)),
+              body |-> << SAssign(iv, [k |-> "bin", op |-> "+", l |-> V(iv), r |-> NumE(1)]),
+                          [k |-> "expr", e |-> P(100 * d + 10, V(iv))],
+                          If1([k |-> "bin", op |-> ">=", l |-> V(iv), r |-> NumE(2)], <<SAssign("c" \o S(d), V("null"))>>) >> \o b] >>
 
 \* Part(d, inLoop, k): the blocks at depth d whose construct is the k-th positioned construct (k = 0: none)
 RECURSIVE Shapes(_, _), Part(_, _, _)
@@ -67,7 +74,7 @@ Part(d, inLoop, k) ==
     ELSE IF d = 0 THEN {}
     ELSE IF k <= 8 THEN UNION { wrap(IfForm(d, b, k)) : b \in Shapes(d - 1, inLoop) }
     ELSE UNION { wrap(LoopForm(d, b, k)) : b \in Shapes(d - 1, TRUE) }
-Shapes(d, inLoop) == UNION { Part(d, inLoop, k) : k \in 0..11 }
+Shapes(d, inLoop) == UNION { Part(d, inLoop, k) : k \in 0..12 }
 
 Fn(name, body) == [k |-> "function", name |-> name, args |-> <<>>, last |-> FALSE, body |-> body]
 CallS(name) == SAssign("res", CallL(name, <<>>))
@@ -86,7 +93,13 @@ ProgramsPart(k, c) ==
       [] c = 5 -> { <<Fn("fa", b), Fn("fb", s \o <<RetS(9)>>), CallS("fb"), CallS("fa"), CallS("fb")>> : b \in Part(Depth - 1, FALSE, k), s \in Small }
       \* control flow at global scope BEFORE and AFTER a function that itself contains control flow
       [] c = 6 -> { s1 \o <<Fn("fa", s2 \o <<RetS(9)>>), CallS("fa")>> \o b : b \in Part(Depth - 1, FALSE, k), s1 \in Small, s2 \in Small }
-PartIds == (0..11) \X (1..6)
+      \* a function DEFINED inside a block at global scope (its own loops resolve break / continue inside the function)
+      [] c = 7 -> { <<If1(Cond(0, 2), <<Fn("fa", b)>>), CallS("fa"), Log(93)>> : b \in Part(Depth - 1, FALSE, k) }
+                  \cup { <<SAssign("i9", NumE(0)),
+                           [k |-> "while", cond |-> [k |-> "bin", op |-> "<", l |-> V("i9"), r |-> NumE(2)],
+                            body |-> <<SAssign("i9", [k |-> "bin", op |-> "+", l |-> V("i9"), r |-> NumE(1)]), Fn("fa", b), CallS("fa")>>]>>
+                          : b \in Part(Depth - 1, FALSE, k) }
+PartIds == (0..12) \X (1..7)
 \* (an operator with a parameter: TLC must not pre-compute the whole family as a constant)
 ProgramsAll(dummy) == UNION { ProgramsPart(pc[1], pc[2]) : pc \in PartIds }
 
